@@ -7,8 +7,8 @@ PROP_FILE = 'C11'
 
 def mons():
     return [M.m_terminates, M.m_limits,
-            lambda r: M.m_download_window(r, r.manager._config.max_in_memory_download_chunks),
-            lambda r: M.m_window_capacity(r, r.manager._config.max_in_memory_download_chunks)]
+            lambda r: M.m_download_window(r, r.config.max_in_memory_download_chunks),
+            lambda r: M.m_window_capacity(r, r.config.max_in_memory_download_chunks)]
 
 
 def specs(ctx):
@@ -30,6 +30,14 @@ def specs(ctx):
             ch = {'kind': 'pct', 'seed': rng.randrange(1 << 30), 'depth': 4}   # makes the lowest part the slowest
         out.append(dict(transfers=ts, cfg=cfg, chooser=ch))
     out += sysrun.specs_shared_window(ctx, 400 if ctx.thorough() else 120)
+    # many stream uploads BELOW the multipart threshold sharing one manager: their bodies are
+    # buffered too and count against max_in_memory_upload_chunks (one PutObject body each)
+    for i in range(60 if ctx.thorough() else 16):
+        k = rng.choice([4, 5, 6])
+        ts = [dict(kind='upload', src='nonseekable', size=rng.choice([1, 2])) for _ in range(k)]
+        cfg = dict(max_request_concurrency=1, max_submission_concurrency=rng.choice([1, 2]),
+                   max_in_memory_upload_chunks=rng.choice([1, 2]), multipart_chunksize=4, multipart_threshold=rng.choice([3, 5]))
+        out.append(dict(transfers=ts, cfg=cfg, chooser={'kind': ['pct', 'random'][i % 2], 'seed': rng.randrange(1 << 30), 'depth': 5}))
     return out
 
 
